@@ -50,6 +50,12 @@ func (d *Decoder) ExpectTypesInInterface(types ...reflect.Type) {
 	d.expectedTypes = types
 }
 
+// ExpectedTypesInInterface returns hints set by ExpectTypesInInterface, which are not used yet. It's required
+// for objects with own decoder inside (like gzip_packed), to pass hints further
+func (d *Decoder) ExpectedTypesInInterface() []reflect.Type {
+	return d.expectedTypes
+}
+
 func (d *Decoder) read(buf []byte) {
 	if d.err != nil {
 		return
